@@ -198,6 +198,24 @@ class Describer:
                         break
                 if vals and len(vals) <= 4:
                     return ("ints", frozenset(vals))
+                # one of a few computed values (`if c { a + 16 } else { a }`)
+                if e[1] not in self._busy:
+                    self._busy.add(e[1])
+                    try:
+                        nums = set()
+                        for (bi, si, st) in self.fn.defs().get(e[1], []):
+                            if si == "term" or st.get("k") != "assign" or st["place"]["proj"]:
+                                nums = None
+                                break
+                            v = self.num(strip_bb(self.R.rvalue(st["rv"])))
+                            if "idx" in repr(v) or "'?'" in repr(v):
+                                nums = None
+                                break
+                            nums.add(v)
+                        if nums and 2 <= len(nums) <= 4:
+                            return ("nums", frozenset(nums))
+                    finally:
+                        self._busy.discard(e[1])
                 return ("idx",)
             return self.num(strip_bb(self.R.local(e[1])))
         if k == "place":
@@ -458,11 +476,46 @@ def zipped_elem_event(D, fn, s):
     return ("elem", base[1], (rng, val))
 
 
+def compose_slices(desc):
+    """x[a..][..n] is x[a..a+n]; x[a..][b..] is x[a+b..]"""
+    if not (isinstance(desc, tuple) and desc[0] == "slice" and isinstance(desc[1], tuple) and desc[1] and desc[1][0] == "slice"):
+        return desc
+    inner, outer = desc[1], desc[2]
+    if inner[2][0] == "from" and isinstance(outer, tuple):
+        a = inner[2][1]
+
+        def add(x, y):
+            if x == 0:
+                return y
+            if y == 0:
+                return x
+            return ("+",) + tuple(sorted([x, y], key=repr))
+        if outer[0] == "to":
+            return ("slice", inner[1], ("range", a, add(a, outer[1])))
+        if outer[0] == "from":
+            return ("slice", inner[1], ("from", add(a, outer[1])))
+        if outer[0] == "range":
+            return ("slice", inner[1], ("range", add(a, outer[1]), add(a, outer[2])))
+    return desc
+
+
+def canon_slices(x):
+    """recursively bring nested slices into the composed form (for comparisons only)"""
+    if isinstance(x, tuple):
+        y = tuple(canon_slices(e) for e in x)
+        return compose_slices(y)
+    if isinstance(x, frozenset):
+        return frozenset(canon_slices(e) for e in x)
+    return x
+
+
 def distribute_ints(desc):
     """('slice', base, (kind, a + one-of-constants)) is one of the slices with each constant"""
     if not (isinstance(desc, tuple) and desc[0] == "slice" and isinstance(desc[2], tuple) and len(desc[2]) == 2):
         return desc
     kind, bound = desc[2]
+    if isinstance(bound, tuple) and bound and bound[0] == "nums":
+        return ("oneof", frozenset(("slice", desc[1], (kind, c)) for c in bound[1]))
     if isinstance(bound, tuple) and bound and bound[0] == "+" and len(bound) == 3:
         for i in (1, 2):
             x, other = bound[i], bound[3 - i]
